@@ -181,6 +181,14 @@ pub fn gen_schema(rng: &mut Rng) -> (SchemaDoc, SchemaInfo) {
     if has_sub {
         defs.push(TypeDef::Object { name: sname.into(), implements: vec![], fields: vec![FieldDef::new("ticks", GType::named("Int")), FieldDef::new("updates", GType::named(&obj_names[0]))] });
     }
+    // an explicit schema block that omits a root kind, next to an ORDINARY object that happens to
+    // carry the default root name: it must not become a root
+    if explicit && !has_mut && rng.chance(1, 2) {
+        defs.push(TypeDef::Object { name: "Mutation".into(), implements: vec![], fields: vec![FieldDef::new("doIt", GType::named("Int")), FieldDef::new("position", GType::named("String"))] });
+    }
+    if explicit && !has_sub && rng.chance(1, 2) {
+        defs.push(TypeDef::Object { name: "Subscription".into(), implements: vec![], fields: vec![FieldDef::new("ticks", GType::named("Int")), FieldDef::new("plan", GType::named("String"))] });
+    }
     defs.extend(extends);
     if rng.chance(1, 3) {
         // definition order must not matter within a kind: shuffle everything
